@@ -274,6 +274,7 @@ pub fn extract_tls_signature_from_client_hello(
     let mut signature_algorithms = Vec::new();
     let mut elliptic_curves = Vec::new();
     let mut elliptic_curve_point_formats = Vec::new();
+    let mut highest_supported_version: Option<u16> = None;
 
     // Parse extensions if present - if not present, we still generate JA4 with empty extension fields
     if let Some(ext_data) = &client_hello.ext {
@@ -307,6 +308,14 @@ pub fn extract_tls_signature_from_client_hello(
                         TlsExtension::EcPointFormats(formats) => {
                             elliptic_curve_point_formats = formats.to_vec();
                         }
+                        TlsExtension::SupportedVersions(versions) => {
+                            // JA4 uses the highest non-GREASE version listed in the extension
+                            highest_supported_version = versions
+                                .iter()
+                                .map(|v| v.0)
+                                .filter(|v| !TLS_GREASE_VALUES.contains(v))
+                                .max();
+                        }
                         _ => {}
                     }
                 }
@@ -317,7 +326,10 @@ pub fn extract_tls_signature_from_client_hello(
         }
     }
 
-    let version = determine_tls_version(&client_hello.version, &extensions);
+    let version = match highest_supported_version {
+        Some(code) => determine_tls_version(&tls_parser::TlsVersion(code), &[]),
+        None => determine_tls_version(&client_hello.version, &extensions),
+    };
 
     Ok(Signature {
         version,
@@ -349,8 +361,8 @@ pub fn determine_tls_version(
         tls_parser::TlsVersion::Tls10 => TlsVersion::V1_0,
         tls_parser::TlsVersion::Ssl30 => TlsVersion::Ssl3_0,
         _ => {
-            debug!("Unknown/unsupported TLS version {:?}, defaulting to TLS 1.2", legacy_version);
-            TlsVersion::V1_2
+            debug!("Unknown/unsupported TLS version {:?}", legacy_version);
+            TlsVersion::Unknown(legacy_version.0)
         }
     }
 }
